@@ -6,7 +6,11 @@ proof      : lean/SqlframeModel/Props/C14.lean (C14_modes_partial, C14_history, 
 tie        : Gen.Writer regenerated from /repo on every run (tools/gen_c14.py), compared with the live
              objects (statement shapes, _validate_mode), and the correspondence streams below:
              real sqlframe + DuckDB   vs   Impl/C14Writer.lean `step` / `pathStep`   vs   the specification
+             + the option stream (tools/props/c14_opts.py): write.<fmt>(path, **options) then the read with options;
+             the option lists of the issued COPY / read_<fmt> statements vs Impl/C14Options.lean, files and tables vs
+             DuckDB given the model's / the specification's option lists, explicit header / compression facts, round trip
 search     : the same streams compare the implementation with the specification directly
+workers    : tools/props/c14_pool.py (plain fork children, polled; never forked from a process that used DuckDB)
 executable only (NOT decided by a theorem): csv/json/parquet content round trips, file-level
              behaviour of a failing COPY … TO (both are DuckDB's)
 """
@@ -15,24 +19,29 @@ from __future__ import annotations
 import json
 import os
 import random
+import re
 import shutil
 import tempfile
 import typing as t
 
 import exprs as X
 import vlib
+import c14_opts as O
+import c14_pool
 from vlib import Ctx, bag, log, lval, plain
 
 ID = "C14"
 LEVEL = "proof"
 MODULES = ["SqlframeModel.Codec.C14", "SqlframeModel.Props.C14"]  # the codec is what the driver imports; the audit uses the last one
-GEN = ["Writer"]
+GEN = ["Writer", "C14Options"]
 SOURCES = [
     "SqlframeModel/Props/C14.lean",
     "SqlframeModel/Lemmas/C14.lean",
     "SqlframeModel/Lemmas/C14Steps.lean",
     "SqlframeModel/Impl/C14Writer.lean",
     "SqlframeModel/Impl/C14Scope.lean",
+    "SqlframeModel/Impl/C14Options.lean",
+    "SqlframeModel/Lemmas/C14Options.lean",
 ]
 
 MODES = [None, "error", "errorifexists", "ignore", "overwrite", "append"]
@@ -206,6 +215,8 @@ def show_op(o: dict) -> str:
 
 
 def show_case(c: dict) -> str:
+    if "wopts" in c:
+        return O.show_case(c)
     if "ops" in c:
         return "; ".join(show_op(o) for o in c["ops"])
     return f"[{c['fmt']}] " + "; ".join(show_op(o) for o in c["pops"])
@@ -254,7 +265,7 @@ def engine_catalog(conn: t.Any) -> t.List[t.Any]:
 
 
 def run_tables_impl(c: dict) -> t.List[dict]:
-    session = vlib.fresh_duckdb_session()
+    session = c14_pool.fresh_session()
     conn = session._conn
     out = []
     for o in c["ops"]:
@@ -373,7 +384,7 @@ def read_back(session: t.Any, path: str, fmt: str, f_cols: t.List[str], with_sch
 
 def eval_tables(cases: t.List[dict], workers: int = 0) -> t.List[dict]:
     outs = vlib.run_driver("C14", [case_to_lean(i, c) for i, c in enumerate(cases)])
-    impls = vlib.parallel_map(run_tables_impl, cases, workers)
+    impls = [run_tables_impl(c) for c in cases] if workers == 1 else c14_pool.pmap(run_tables_impl, cases, workers)
     res = []
     for c, o, impl in zip(cases, outs, impls):
         if "err" in o:
@@ -406,14 +417,14 @@ def canon_rows_for(fmt: str, rows: t.List[t.List[t.Any]]) -> t.List[str]:
 def eval_paths(cases: t.List[dict]) -> t.List[dict]:
     outs = vlib.run_driver("C14", [case_to_lean(i, c) for i, c in enumerate(cases)])
     items = [(c, o) for c, o in zip(cases, outs)]
-    return vlib.parallel_map(_paths_one, items, 0)
+    return c14_pool.pmap(_paths_one, items, 0)
 
 
 def _paths_one(item: t.Tuple[dict, dict]) -> dict:
     c, o = item
     if "err" in o:
         raise RuntimeError(f"driver rejected a case: {o}")
-    session = vlib.fresh_duckdb_session()
+    session = c14_pool.fresh_session()
     fmt = c["fmt"]
     d = tempfile.mkdtemp(prefix="verif_c14_")
     steps = []
@@ -517,10 +528,84 @@ def _paths_one(item: t.Tuple[dict, dict]) -> dict:
 # ------------------------------------------------------------------------------------------------
 
 
-def check_gen_against_live(ctx: Ctx) -> int:
-    gen = vlib.run_driver("C14", [{"case": 0, "gen": True}])[0]["gen"]
+def check_options_against_live(ctx: Ctx, gen: dict, session: t.Any) -> int:
+    """Gen.C14Options against the live objects: signatures, what the entry points hand to `_write` / `load`
+    (captured by stand-ins), `to_csv` on sample values"""
+    import inspect
+
+    from sqlframe.base.util import to_csv
+
+    g = gen["options"]
     n = 0
-    session = vlib.fresh_duckdb_session()
+    df = session.createDataFrame([(1,)], schema="x bigint")
+    for v, keeps in g["toCsvKeeps"]:
+        live = to_csv({"k": v}) != ""
+        if live != keeps:
+            ctx.broken.append(f"Gen.C14Options.toCsvKeeps({v!r}) = {keeps} but to_csv({{'k': {v!r}}}) = {to_csv({'k': v})!r}")
+        n += 1
+    for fmt in FORMATS:
+        w = df.write
+        sig = [p for p in inspect.signature(getattr(w, fmt)).parameters if p not in ("path", "mode")]
+        if sig != g["writerParams"][fmt]:
+            ctx.broken.append(f"Gen.C14Options.writerParams({fmt}) = {g['writerParams'][fmt]} but the live signature has {sig}")
+        n += 1
+        got: t.Dict[str, t.Any] = {}
+
+        def fake_write(**kw: t.Any) -> None:
+            got.clear()
+            got.update(kw)
+
+        w._write = fake_write  # type: ignore
+        # every parameter a distinct marker; then every parameter the falsy values (they are values too)
+        for vals in ({p: f"<{p}>" for p in sig}, {p: False for p in sig}, {p: 0 for p in sig}, {p: "" for p in sig}):
+            getattr(w, fmt)("p", **vals)
+            live = [[k, v] for k, v in got.items() if k not in ("path", "mode")]
+            want = []
+            for k, a in g["writerCall"][fmt]:
+                m = re.match(r'Sqlframe\.Gen\.WArg\.(lit|param) "(.*)"$', a)
+                if not m:
+                    ctx.broken.append(f"cannot read Gen.C14Options.writerCall entry {a!r}")
+                    continue
+                want.append([k, m.group(2) if m.group(1) == "lit" else vals[m.group(2)]])
+            if live != want:
+                ctx.broken.append(f"Gen.C14Options.writerCall({fmt}) says _write receives {want} but write.{fmt}(**{vals}) handed it {live}")
+            n += 1
+    for fmt in ("csv", "json"):
+        sig = [p for p in inspect.signature(getattr(session.read, fmt)).parameters if p not in ("path", "schema")]
+        if sig != g["readerParams"][fmt]:
+            ctx.broken.append(f"Gen.C14Options.readerParams({fmt}) = {g['readerParams'][fmt]} but the live signature has {sig}")
+        n += 1
+    for fmt in FORMATS:
+        keeps = {json.dumps(v): k for v, k in g["readerKeeps"][fmt]}
+        key = {"csv": "header", "json": "multiLine", "parquet": "anything"}[fmt]
+        for v in (None, True, False, "", "x", 0, 3):
+            rd = session.read.option("stored", 1)
+            got2: t.Dict[str, t.Any] = {}
+
+            def fake_load(**kw: t.Any) -> t.Any:
+                got2.clear()
+                got2.update(kw)
+                return df
+
+            rd.load = fake_load  # type: ignore
+            getattr(rd, fmt)("p", **{key: v})
+            live_keeps = key in got2 and got2[key] is v
+            if live_keeps != keeps[json.dumps(v)]:
+                ctx.broken.append(f"Gen.C14Options.readerKeeps({fmt}, {v!r}) = {keeps[json.dumps(v)]} but read.{fmt}({key}={v!r}) handed load() {got2}")
+            if got2.get("stored") != 1:
+                ctx.broken.append(f"read.option('stored', 1).{fmt}(…) handed load() {got2}: the stored option is missing")
+            n += 1
+    # a fresh reader starts without options; .option / .options store the last value
+    rd = session.read.option("a", 1).options(a=2, b=3).option("b", None)
+    if dict(rd.state_options) != {"a": 2, "b": None} or dict(session.read.state_options) != {}:
+        ctx.broken.append(f"reader state: .option('a',1).options(a=2,b=3).option('b',None) stores {dict(rd.state_options)}; a fresh reader has {dict(session.read.state_options)}")
+    n += 1
+    return n
+
+
+def check_gen_against_live(ctx: Ctx, gen: dict) -> int:
+    n = 0
+    session = c14_pool.fresh_session()
     conn = session._conn
     log_sql: t.List[str] = []
     orig = session._execute
@@ -593,6 +678,8 @@ def check_gen_against_live(ctx: Ctx) -> int:
                 n += 1
     finally:
         shutil.rmtree(d, ignore_errors=True)
+    session._execute = orig  # type: ignore
+    n += check_options_against_live(ctx, gen, session)
     return n
 
 
@@ -629,7 +716,29 @@ def classify(r: dict, known: t.Dict[str, dict]) -> t.Tuple[str, t.List[str]]:
     return "violation", hs
 
 
+def eval_any(cases: t.List[dict]) -> t.List[dict]:
+    """evaluate cases of one kind (after the streams: in-process, see c14_pool)"""
+    if not cases:
+        return []
+    if "ops" in cases[0]:
+        return eval_tables(cases, workers=1)
+    if "pops" in cases[0]:
+        return eval_paths(cases)
+    return O.evaluate(cases)
+
+
 def shrink(c: dict, evaluate: t.Callable[[t.List[dict]], t.List[dict]], bad: t.Callable[[dict], bool], rounds: int = 10) -> dict:
+    if "wopts" in c:
+        best = c
+        for _ in range(rounds * 2):
+            cands = O.shrink_candidates(best)
+            if not cands:
+                break
+            nxt = next((r["case"] for r in evaluate(cands) if bad(r)), None)
+            if nxt is None:
+                break
+            best = nxt
+        return best
     key = "ops" if "ops" in c else "pops"
     best = c
     for _ in range(rounds):
@@ -744,8 +853,31 @@ def path_cases(ctx: Ctx) -> t.List[dict]:
     return cases
 
 
+def option_cases(ctx: Ctx, gen: dict) -> t.List[dict]:
+    rng = ctx.rng
+    cases = [c for c in corpus_cases() if "wopts" in c]
+    g = gen["options"]
+    cases += O.targeted(rng, ctx.thorough, g["writerParams"], g["readerParams"])
+    for _ in range(1200 if ctx.thorough else 160):
+        cases.append(O.gen_random(rng))
+    return cases
+
+
 def replay_dict(kind: str, c: dict, r: dict) -> dict:
     i = r["first_spec_diff"] if r["first_spec_diff"] is not None else r["first_model_diff"]
+    if "wopts" in c:
+        st = r["steps"][i] if i is not None else {}
+        return {
+            "kind": kind,
+            "program": O.show_case(c),
+            "case": c,
+            "failing_step": st.get("what"),
+            "violated_scope_hypotheses": st.get("scope", []),
+            "implementation": {"result": st.get("impl"), "error": st.get("err"), "statement_options": st.get("impl_options"),
+                               "difference_from_specification": st.get("spec_diff"), "difference_from_model": st.get("model_diff")},
+            "specification": {"write_options": r["driver"]["w_spec"], "read_options": r["driver"]["r_spec"], "round_trip_demanded": O.expects_frame(c)},
+            "model": {"write_options": r["driver"]["w_model"], "read_options": r["driver"]["r_model"]},
+        }
     d = {
         "kind": kind,
         "program": show_case(c),
@@ -774,13 +906,22 @@ def run(ctx: Ctx) -> None:
     known = known_entries()
 
     # the streams fork worker processes: nothing may touch DuckDB in this process before they ran
+    # (c14_pool refuses to fork once it has; everything later runs in-process)
+    t0 = ctx.elapsed()
+    gen = vlib.run_driver("C14", [{"case": 0, "gen": True}])[0]["gen"]
     tcases = table_cases(ctx)
     tres = eval_tables(tcases)
+    t1 = ctx.elapsed()
     pcases = path_cases(ctx)
     pres = eval_paths(pcases)
+    t2 = ctx.elapsed()
+    ocases = option_cases(ctx, gen)
+    ores = O.evaluate(ocases)
+    t3 = ctx.elapsed()
+    log(f"C14: prove {t0:.1f}s; tables {len(tcases)} cases {t1 - t0:.1f}s; paths {len(pcases)} cases {t2 - t1:.1f}s; options {len(ocases)} cases {t3 - t2:.1f}s")
     nb = len(ctx.broken)
     try:
-        n_gen = check_gen_against_live(ctx)
+        n_gen = check_gen_against_live(ctx, gen)
     except Exception as e:  # noqa  (a probe of the live objects failed outright: that is a disagreement too)
         n_gen = 0
         ctx.broken.append(f"comparison of Gen.Writer with the live objects raised {type(e).__name__}: {str(e)[:160]}")
@@ -792,7 +933,7 @@ def run(ctx: Ctx) -> None:
     viol: t.List[t.Tuple[str, dict]] = []
     model_bad: t.List[t.Tuple[str, dict]] = []
     hist: t.Dict[str, int] = {}
-    for kind, results in (("tables", tres), ("paths", pres)):
+    for kind, results in (("tables", tres), ("paths", pres), ("options", ores)):
         for r in results:
             cl, hs = classify(r, known)
             hist[cl] = hist.get(cl, 0) + 1
@@ -809,7 +950,7 @@ def run(ctx: Ctx) -> None:
         w = e.get("witness")
         if not w:
             continue
-        r = (eval_tables([w], workers=1) if "ops" in w else eval_paths([w]))[0]
+        r = eval_any([w])[0]
         if r["first_spec_diff"] is not None:
             vlib.report_known(ctx, e, e["summary"])
         else:
@@ -823,10 +964,36 @@ def run(ctx: Ctx) -> None:
         )
 
     reported = 0
-    for kind, r in (viol + model_bad)[:3]:
-        ev = (lambda cs: eval_tables(cs, workers=1)) if kind == "tables" else eval_paths
+    # one report per stream first (a change may show in several), then failures that look different, up to three;
+    # the generated-decision messages are cut to a readable length
+    ctx.broken[:] = [b if len(b) <= 420 else b[:400] + " …" for b in ctx.broken]
+
+    def signature(kind: str, r: dict) -> str:
+        i = r["first_spec_diff"] if r["first_spec_diff"] is not None else r["first_model_diff"]
+        st = r["steps"][i]
+        what = st.get("what") or (r["case"]["ops"][i]["k"] if "ops" in r["case"] else "")
+        txt = str(st.get("spec_diff") or st.get("model_diff") or st.get("api_vs_spec") or "")
+        return kind + ":" + str(what) + ":" + re.sub(r"[^A-Za-z ]+", "#", txt)[:40]
+
+    distinct: t.List[t.Tuple[str, dict]] = []
+    seen_sig: t.Set[str] = set()
+    for x in viol + model_bad:
+        if signature(*x) not in seen_sig:
+            seen_sig.add(signature(*x))
+            distinct.append(x)
+    todo: t.List[t.Tuple[str, dict]] = []
+    for kd in ("options", "paths", "tables"):
+        todo += [x for x in distinct if x[0] == kd][:1]
+    todo += [x for x in distinct if not any(x is y for y in todo)]
+    shown_cases: t.List[t.Any] = []
+    for kind, r in todo[:3]:
+        ev = eval_any
         bad = lambda rr: classify(rr, known)[0] in ("violation", "model")  # noqa
         c = shrink(r["case"], ev, bad)
+        key = {k: v for k, v in c.items() if k != "origin"}
+        if key in shown_cases:
+            continue
+        shown_cases.append(key)
         rr = ev([c])[0]
         vlib.report_violation(
             ctx,
@@ -839,7 +1006,7 @@ def run(ctx: Ctx) -> None:
     if ctx.broken and not reported:
         vlib.report_violation(
             ctx,
-            {"kind": "proof obligation or generated decision no longer checks; no failing input found", "broken": ctx.broken, "searched": {"table_histories": len(tres), "path_histories": len(pres)}},
+            {"kind": "proof obligation or generated decision no longer checks; no failing input found", "broken": ctx.broken, "searched": {"table_histories": len(tres), "path_histories": len(pres), "option_cases": len(ores)}},
             no_input=True,
         )
 
@@ -874,15 +1041,37 @@ def run(ctx: Ctx) -> None:
             n_steps += 1
             path_res_hist[s["impl"]] = path_res_hist.get(s["impl"], 0) + 1
         nontrivial.add(vlib.digest([r["case"]["fmt"], r["case"]["pops"]]))
+    opt_origin: t.Dict[str, int] = {}
+    opt_keys: t.Dict[str, int] = {}
+    opt_results: t.Dict[str, int] = {}
+    n_round_trips = 0
+    for r in ores:
+        c = r["case"]
+        opt_origin[c.get("origin", "?")] = opt_origin.get(c.get("origin", "?"), 0) + 1
+        for k, v in c["wopts"]:
+            opt_keys[f"write.{c['fmt']}({k}={v!r})"] = opt_keys.get(f"write.{c['fmt']}({k}={v!r})", 0) + 1
+        for s_ in r["steps"]:
+            n_steps += 1
+            opt_results[f"{s_['what']}:{s_['impl']}"] = opt_results.get(f"{s_['what']}:{s_['impl']}", 0) + 1
+            n_round_trips += bool(s_.get("round_trip_demanded"))
+        if any(s_["what"] == "read" and s_["impl"] == "ok" for s_ in r["steps"]) or (c["wopts"] and r["steps"] and r["steps"][0]["impl"] == "ok"):
+            nontrivial.add(vlib.digest([c["fmt"], c["f"], c["wopts"], c.get("rcalls"), c.get("ropts"), c.get("via"), c.get("schema"), c.get("pre")]))
     ctx.cov.update(
         {
-            "evaluations": len(tres) + len(pres),
+            "evaluations": len(tres) + len(pres) + len(ores),
             "calls_executed": n_steps,
             "distinct_nontrivial": len(nontrivial),
             "rule": "corpus; every mode x {argument, .mode()} x {target missing, exists} x {same, permuted, failing frame}; insertInto x {positional, byName} x {schema cached or not}; "
-            "random histories of 2..8 calls on 2 targets; the same grid for csv/json/parquet paths plus random path histories. "
-            "non-trivial = distinct table histories that leave at least one non-empty table, plus distinct path histories",
-            "traces_validated_against_impl": sum(r["first_model_diff"] is None for r in tres) + sum(r["first_model_diff"] is None for r in pres),
+            "random histories of 2..8 calls on 2 targets; the same grid for csv/json/parquet paths plus random path histories; "
+            "option cases: every spelling of csv header x compression x {new path, overwrite} read back by the matching call (method / load / format().load), "
+            "stored-vs-call precedence, json/parquet compression, every option parameter of every writer (and a sample of the readers') given a falsy value, random option sets. "
+            "non-trivial = distinct table histories that leave at least one non-empty table, plus distinct path histories, plus distinct option cases whose write (with options) or read succeeded",
+            "traces_validated_against_impl": sum(r["first_model_diff"] is None for r in tres) + sum(r["first_model_diff"] is None for r in pres) + sum(r["first_model_diff"] is None for r in ores),
+            "option_cases": len(ores),
+            "option_case_origins": opt_origin,
+            "option_step_results": opt_results,
+            "option_round_trips_demanded": n_round_trips,
+            "writer_option_histogram": dict(sorted(opt_keys.items(), key=lambda kv: -kv[1])[:40]),
             "histories_agreeing_with_specification": hist.get("ok", 0),
             "histories_with_known_finding": hist.get("known", 0),
             "histories_outside_declared_scope": hist.get("declared", 0),
@@ -896,7 +1085,8 @@ def run(ctx: Ctx) -> None:
             "implementation_errors": err_hist,
             "path_result_histogram": path_res_hist,
             "samples": [{"program": show_case(r["case"])[:600], "final_catalog": r["impl"][-1]["cat"]} for r in tres[:: max(1, len(tres) // 3)][:3]]
-            + [{"program": show_case(r["case"])[:600], "results": [s["impl"] for s in r["steps"]]} for r in pres[:: max(1, len(pres) // 2)][:2]],
+            + [{"program": show_case(r["case"])[:600], "results": [s["impl"] for s in r["steps"]]} for r in pres[:: max(1, len(pres) // 2)][:2]]
+            + [{"program": show_case(r["case"])[:600], "results": [s["impl"] for s in r["steps"]], "statement_options": [s["impl_options"] for s in r["steps"]]} for r in ores[:: max(1, len(ores) // 2)][:2]],
         }
     )
     ctx.assumptions += [
@@ -905,6 +1095,11 @@ def run(ctx: Ctx) -> None:
         "CSV cannot distinguish '' from NULL (both DuckDB and PySpark read NULL): rows are compared modulo that for csv only",
         "PySpark's behaviour of the six save modes, of saveAsTable(append) assigning by name and of mode().csv() was confirmed once against live PySpark 3.5.9; `byName` is a sqlframe extension (specified as: project the frame onto the target's columns by name)",
         "catalog observations use DuckDB's information_schema directly; rows are compared as bags",
+        "what DuckDB does with an option of COPY … TO / read_<format> (header, compression, sep, …; which options it rejects) is the engine's and is not modelled: the option lists of the model and of the specification are executed on DuckDB itself and the resulting files / tables compared; independently of that, an explicit header=True/False must show as a header line present/absent and compression='gzip' as a gzip file",
+        "a string option value that is a bare word (gzip, true, snappy) means the same to DuckDB with and without quotes; other string values are under H_optionValueQuoted",
+        "option cases also use boolean / double / date columns (half of the frames): doubles are drawn from {0.0, 1.5, -0.25, 2.0} (binary fractions with a short decimal form, written and parsed exactly by csv / json / parquet) and compared exactly; such frames are built from typed VALUES through session.sql, because createDataFrame's bare literals reach DuckDB as DECIMAL / INTEGER whatever the declared schema says (C09's subject)",
+        "the round trip (read == frame) is demanded only for the matching read: the read's effective header / compression equal the write's explicit ones, a schema is given when the file has no header line, inferred types only when every column has a value that pins its type; an empty headerless csv / empty json file is DuckDB's to interpret (H_jsonEmptyFrame)",
+        "the statement text the reader issues has passed through sqlglot's parser and generator; option values are compared after a common normalisation (TRUE/True, \"word\"/word)",
     ]
 
 
@@ -914,7 +1109,7 @@ def replay(ctx: Ctx, rp: dict) -> None:
         print("replay names a broken obligation, not an input:", rp.get("broken"))
         return
     known = known_entries()
-    r = (eval_tables([c], workers=1) if "ops" in c else eval_paths([c]))[0]
+    r = eval_any([c])[0]
     cl, hs = classify(r, known)
     print(json.dumps(dict(replay_dict(cl, c, r), classification=cl), indent=1, default=str))
     if cl in ("violation", "model"):
